@@ -5,6 +5,18 @@ pub(crate) mod verif_common {
     pub fn no_backtrace() -> std::backtrace::Backtrace {
         std::backtrace::Backtrace::disabled()
     }
+    /// stub for core::slice::memchr::memchr (private std helper behind str::split/find): its specification,
+    /// first index of the byte, without the alignment case split that makes CBMC explode
+    pub fn naive_memchr(x: u8, text: &[u8]) -> Option<usize> {
+        let mut i = 0;
+        while i < text.len() {
+            if text[i] == x {
+                return Some(i);
+            }
+            i += 1;
+        }
+        None
+    }
     /// stub for alloc::fmt::format: error-message text is irrelevant to every contract
     pub fn no_format(_args: core::fmt::Arguments<'_>) -> String {
         String::new()
